@@ -252,7 +252,8 @@ class MultiLayerAtmosphere(OpticalElement):
 
     @scintillation.setter
     def scintillation(self, scintillation):
-        self._dirty = scintillation != self.scintillation
+        # A pending rebuild (layers re-assigned, scintillation toggled earlier) must survive this assignment.
+        self._dirty = self._dirty or (scintillation != self.scintillation)
         self._scintillation = scintillation
 
     def evolve_until(self, t):
